@@ -11,17 +11,20 @@ package controllerv1
 
 // One attempt: the attempt succeeds exactly if the promise returned by the
 // insert service was completed without error.
-//@ func doPush$1$1 [C01]
+//@ func doPush$1$1 [C01,C05]
 //@   check attempt: result == nil <==> reqErr == nil
 
 // The pusher goroutine completes the caller's promise with the outcome of the
 // retried attempts (retry.Do: assumed to call the attempt function 1..N times
 // and to return nil iff the last call returned nil).
-//@ func doPush$1 [C01]
+//@ func doPush$1 [C01,C05]
 //@   requires p.pending == 1
+//@   requires there-is-a-service-to-call: !isnil(svc) && !isnil(req)
 //@   check completed: p.pending == 0 && p.err == err
 
-//@ func doPush [C01]
+// The pusher goroutine has no recover: it is only started when there is a request
+// and a service to hand it to (a nil service would be a nil-interface call there).
+//@ func doPush [C01,C05]
 //@   modifies nothing
 //@   ensures fresh(result) && (result.pending == 1 || (result.pending == 0 && result.err == nil && (isnil(req) || isnil(svc))))
 
